@@ -1,6 +1,8 @@
 package main
 
 import (
+	"fmt"
+
 	"github.com/jig/lisp/types"
 	. "verif.local/harness/h"
 )
@@ -117,5 +119,75 @@ func runC04(tier string, seed uint64, rep *Report) {
 	}
 	for i := 0; i < n; i++ {
 		addProgram(rep, gen(4), true, "random-ast")
+	}
+	c04Compositions(r, rep, tier)
+}
+
+// (iv) error paths that interact: a failing expression inside nested evaluation contexts (tail and non-tail
+// positions, closures, builtins that call back into lisp, forms built at run time by a macro, try with
+// handlers and finally bodies that themselves use symbols, fail, or tail-call with a wrong arity), each
+// delivered three ways: as a Go-built AST (compared with the model), as text read without a module name
+// and as text read under a module name (positions present: the error decoration paths differ).
+func c04Compositions(r *Rng, rep *Report, tier string) {
+	failing := []string{
+		"(throw {:boom 1})", "(throw \"s\")", "(undefined-fn 1)", "zz-undefined", "((fn [a] a))", "((fn [a] a) 1 2)", "(one-arg)", "(one-arg 1 2)",
+		"(nth [] 3)", "(first 5)", "(+ 1 \"s\")", "(1 2)", "((fn [& r] (first r)))", "(assert false)", "(swap! 5 inc)", "(deref 5)", "(apply + 1)",
+	}
+	fine := []string{"1", "(trace! :ok)", "(+ 1 2)", "(count log)", "[1 (trace! 2)]"}
+	pick := func(xs []string) string { return xs[r.Intn(len(xs))] }
+	var ctxs []func(inner string) string
+	ctxs = []func(string) string{
+		func(x string) string { return x },
+		func(x string) string { return "(do (trace! :a) " + x + ")" },
+		func(x string) string { return "(do " + x + " (trace! :after))" },
+		func(x string) string { return "(let [q 1] " + x + ")" },
+		func(x string) string { return "(let [q " + x + "] q)" },
+		func(x string) string { return "(if true " + x + " 2)" },
+		func(x string) string { return "(if " + x + " 1 2)" },
+		func(x string) string { return "((fn [] " + x + "))" },
+		func(x string) string { return "(list 1 " + x + " 3)" },
+		func(x string) string { return "(map (fn [v] " + x + ") [1 2])" },
+		func(x string) string { return "(apply (fn [v] " + x + ") [1])" },
+		func(x string) string { return "(eval (quote " + x + "))" },
+		func(x string) string { return "(swap! (atom 1) (fn [v] " + x + "))" },
+		func(x string) string { return "(mm-map (fn [v] " + x + ") [1 2])" },   // the (map ..) call form is built by a macro: no position
+		func(x string) string { return "(mm-apply (fn [v] " + x + ") [1])" },
+		func(x string) string { return "(-> 1 ((fn [v] " + x + ")))" },
+		func(x string) string { return "(try " + x + " (catch e " + pick(append(failing, fine...)) + "))" },
+		func(x string) string { return "(try " + x + " (catch e (trace! e)) (finally (swap! log conj :f)))" },
+		func(x string) string { return "(try " + x + " (catch exc " + pick(failing) + ") (finally (swap! log conj :f)))" },
+		func(x string) string { return "(try " + x + " (finally " + pick(append(failing, fine...)) + "))" },
+		func(x string) string { return "(try (try " + x + " (finally (trace! :inner))) (catch e2 (trace! :outer)))" },
+		func(x string) string { return "(try 1 (catch e 2) (finally " + x + "))" },
+		func(x string) string { return "(try (throw 1) (catch e " + x + ") (finally (trace! (count log))))" },
+	}
+	prelude := "(def log (atom [])) (def one-arg (fn [a] a)) (defmacro mm-map (fn [f xs] `(map ~f ~xs))) (defmacro mm-apply (fn [f xs] `(apply ~f ~xs)))"
+	n := 1200
+	if tier == "thorough" {
+		n = 30000
+	}
+	for i := 0; i < n; i++ {
+		x := pick(failing)
+		if r.Intn(6) == 0 {
+			x = pick(fine)
+		}
+		for d, depth := 0, 1+r.Intn(3); d < depth; d++ {
+			x = ctxs[r.Intn(len(ctxs))](x)
+		}
+		src := "(do " + prelude + " " + x + ")"
+		w, _ := NewWorld()
+		ast, err := READ(w, src)
+		if err != nil {
+			panic("harness: " + src + ": " + err.Error())
+		}
+		idx, _, _ := addProgram(rep, StripPos(ast), true, "composition:ast")
+		for _, module := range []bool{false, true} {
+			_, _, o := evalText(src, module)
+			tag := map[bool]string{false: "composition:text-no-module", true: "composition:text-module"}[module]
+			rep.Histogram[tag]++
+			if o.Panic != nil {
+				rep.Violate(idx, fmt.Sprintf("a Go panic escaped from EVAL (%s): %v", tag, o.Panic), src)
+			}
+		}
 	}
 }
